@@ -119,6 +119,325 @@ theorem default_clone_off (node : WF) (n : Nat) (hc : node.c = false) (hf : node
   obtain ⟨_, rfl⟩ := hw
   simp [defaultClone, WF.assign, hc, hf]
 
+/-! ### initial flags come from the node's own options over the enclosing scopes -/
+
+/-- what a block says about the option behind language `l` (`c_f` has no option) -/
+def WrapOpts.get (o : WrapOpts) : Lang → Option Bool
+  | .fortran => o.fortran
+  | .c => o.c
+  | .lua => o.lua
+  | .python => o.python
+  | .c_f => none
+
+/-- **the node's own `options:` block wins** over every enclosing scope, whatever they say -/
+theorem init_own_block_wins (l : Lang) (o : WrapOpts) (os : List WrapOpts) (b : Bool)
+    (h : o.get l = some b) : (initFlags (o :: os)).get l = b := by
+  cases l <;> simp [WrapOpts.get] at h <;> simp [initFlags, WF.init, WF.get, lookupOpt, h]
+
+/-- an option the node's own block does not mention is **inherited** from the enclosing scope -/
+theorem init_inherits (l : Lang) (o : WrapOpts) (os : List WrapOpts)
+    (h : o.get l = none) : (initFlags (o :: os)).get l = (initFlags os).get l := by
+  cases l <;> simp [WrapOpts.get] at h <;> simp [initFlags, WF.init, WF.get, lookupOpt, h]
+
+/-- no block mentions it: the library default (regenerated from `ast.default_options`) -/
+theorem init_default (l : Lang) (os : List WrapOpts) (h : ∀ o ∈ os, o.get l = none) :
+    (initFlags os).get l = wrapDefaults.get l := by
+  induction os with
+  | nil => cases l <;> simp [initFlags, WF.init, WF.get, lookupOpt, wrapDefaults]
+  | cons o os ih =>
+    rw [init_inherits l o os (h o (by simp))]
+    exact ih (fun o' ho' => h o' (by simp [ho']))
+
+/-- **table theorem**: the defaults the model assumes are the ones in `ast.default_options` -/
+theorem wrap_defaults_regenerated :
+    Shroud.Gen.Flags.wrapDefaults = (wrapDefaults.fortran, wrapDefaults.c, wrapDefaults.lua, wrapDefaults.python) := by
+  decide +kernel
+
+/-! ### every clone-making step of `generate_functions` stays within the declaration -/
+
+theorem within_iff (w d : WF) : Within w d ↔
+    ((w.fortran = true → d.fortran = true) ∧ (w.c_f = true → d.c_f = true) ∧ (w.c = true → d.c = true) ∧
+     (w.lua = true → d.lua = true) ∧ (w.python = true → d.python = true)) := by
+  constructor
+  · intro h; exact ⟨h .fortran, h .c_f, h .c, h .lua, h .python⟩
+  · intro ⟨h1, h2, h3, h4, h5⟩ l; cases l <;> assumption
+
+theorem within_refl (w : WF) : Within w w := fun _ h => h
+
+theorem within_clear (w d : WF) : Within w.clear d := by
+  intro l; cases l <;> simp [WF.clear, WF.get]
+
+/-- the clones made by the C/Fortran-only steps: which flags can be on -/
+theorem within_cOnly (node D : WF) (hD : D.fortran = true → D.c = true) (h : Within node D)
+    (hn : node.c = true ∨ node.fortran = true) : Within (cOnly node) D := by
+  rw [within_iff] at h ⊢
+  obtain ⟨hf, _, hc, _, _⟩ := h
+  simp only [cOnly, WF.assign]
+  refine ⟨by simp, by simp, fun _ => ?_, by simp, by simp⟩
+  rcases hn with hn | hn
+  · exact hc hn
+  · exact hD (hf hn)
+
+theorem within_fOnly (node D : WF) (h : Within node D) (hn : node.fortran = true) : Within (fOnly node) D := by
+  rw [within_iff] at h ⊢
+  simp only [fOnly, WF.assign]
+  exact ⟨fun _ => h.1 hn, by simp, by simp, by simp, by simp⟩
+
+theorem within_cfOf (node D : WF) (h : Within node D) : Within (cfOf node) D := by
+  rw [within_iff] at h ⊢
+  simp only [cfOf, WF.assign]
+  exact ⟨h.1, by simp, h.2.2.1, by simp, by simp⟩
+
+/-- switching flags off keeps a node within its declaration -/
+theorem within_mono (w w' D : WF) (h : Within w D) (hle : Within w' w) : Within w' D :=
+  fun l hl => h l (hle l hl)
+
+theorem bufClones_within (v : Variant) (node D : WF) (hD : D.fortran = true → D.c = true)
+    (h : Within node D) (hf : node.fortran = true) :
+    Within (bufClones v node).1 D ∧ ∀ w ∈ (bufClones v node).2, Within w D := by
+  have hc := within_cOnly node D hD h (Or.inr hf)
+  have hfo := within_fOnly node D h hf
+  have h' := (within_iff node D).mp h
+  obtain ⟨h1, h2, h3, h4, h5⟩ := h'
+  cases hv : v.vectorArg <;> cases hr : v.resultAsArg <;> simp only [bufClones, hv, hr] <;>
+    refine ⟨?_, ?_⟩
+  all_goals first
+    | (intro w hwm; simp at hwm; rcases hwm with rfl | rfl <;> assumption)
+    | (intro w hwm; simp at hwm; subst hwm; assumption)
+    | (rw [within_iff]; simp; refine ⟨?_, ?_, ?_, ?_, ?_⟩ <;> first | assumption | simp)
+    | (rw [within_iff]; simp; refine ⟨?_, ?_, ?_, ?_⟩ <;> first | assumption | simp)
+    | (rw [within_iff]; simp; refine ⟨?_, ?_, ?_⟩ <;> first | assumption | simp)
+    | (rw [within_iff]; simp; refine ⟨?_, ?_⟩ <;> first | assumption | simp)
+    | exact h
+
+theorem dropCIf_within (b : Bool) (node D : WF) (h : Within node D) : Within (dropCIf b node) D := by
+  cases b
+  · exact h
+  · have h' := (within_iff node D).mp h
+    rw [within_iff]; exact ⟨h'.1, h'.2.1, by simp [dropCIf], h'.2.2.2.1, h'.2.2.2.2⟩
+
+@[simp] theorem dropCIf_fortran (b : Bool) (node : WF) : (dropCIf b node).fortran = node.fortran := by
+  cases b <;> rfl
+
+/-! equations of `step`, one per guard outcome -/
+
+theorem bufStep_skip (v : Variant) (node : WF) (h : node.fortran = false ∨ v.fires = false) :
+    bufStep v node = (node, []) := by
+  rcases h with h | h <;> simp [bufStep, h]
+
+theorem bufStep_go (v : Variant) (node : WF) (h1 : node.fortran = true) (h2 : v.fires = true) :
+    bufStep v node = bufClones v node := by simp [bufStep, h1, h2]
+
+theorem step_returnThis_skip (v : Variant) (d node : WF) (h1 : node.c = false) (h2 : node.fortran = false) :
+    step .returnThis v d node = (node, []) := by simp [step, h1, h2]
+
+theorem step_returnThis_go (v : Variant) (d node : WF) (h : node.c = true ∨ node.fortran = true) :
+    step .returnThis v d node = ({ node with c := false, fortran := false }, [cfOf node]) := by
+  rcases h with h | h <;> simp [step, h]
+
+theorem step_cfi_skip (v : Variant) (d node : WF) (h : d.fortran = false ∨ node.fortran = false ∨ v.fires = false) :
+    step .argToCfi v d node = (node, []) := by
+  rcases h with h | h | h <;> simp [step, h]
+
+theorem step_cfi_go (v : Variant) (d node : WF) (h1 : d.fortran = true) (h2 : node.fortran = true) (h3 : v.fires = true) :
+    step .argToCfi v d node = bufClones v (dropCIf v.resultByValue node) := by simp [step, h1, h2, h3]
+
+theorem step_buf_skip (v : Variant) (d node : WF) (h : node.c = false) :
+    step .argToBuffer v d node = (node, []) := by simp [step, h]
+
+theorem step_buf_go (v : Variant) (d node : WF) (h : node.c = true) :
+    step .argToBuffer v d node = bufStep v (dropCIf v.resultByValue node) := by simp [step, h]
+
+theorem step_fg_skip (v : Variant) (d node : WF) (h : node.fortran = false) :
+    step .fortranGeneric v d node = (node, []) := by simp [step, h]
+
+theorem step_fg_go (v : Variant) (d node : WF) (h : node.fortran = true) :
+    step .fortranGeneric v d node = ({ node with fortran := false },
+      (v.newC.map (fun nc => fOnly node :: (if nc then [cOnly node] else []))).flatten) := by simp [step, h]
+
+theorem mem_fgClones (node w : WF) (newC : List Bool)
+    (hw : w ∈ (newC.map (fun nc => fOnly node :: (if nc then [cOnly node] else []))).flatten) :
+    w = fOnly node ∨ w = cOnly node := by
+  simp only [List.mem_flatten, List.mem_map] at hw
+  obtain ⟨l, ⟨nc, _, rfl⟩, hwl⟩ := hw
+  cases nc <;> simp at hwl
+  · exact Or.inl hwl
+  · exact hwl
+
+theorem bufStep_within (v : Variant) (node D : WF) (hD : D.fortran = true → D.c = true) (h : Within node D) :
+    Within (bufStep v node).1 D ∧ ∀ w ∈ (bufStep v node).2, Within w D := by
+  cases hnf : node.fortran
+  · rw [bufStep_skip v node (Or.inl hnf)]; exact ⟨h, by simp⟩
+  · cases hvf : v.fires
+    · rw [bufStep_skip v node (Or.inr hvf)]; exact ⟨h, by simp⟩
+    · rw [bufStep_go v node hnf hvf]; exact bufClones_within v node D hD h hnf
+
+/-- **(5) one step**: for a declaration `D` in which Fortran is only requested together with C, a node
+    that is within `D` stays within `D`, and every clone the step appends is within `D` -
+    for every step kind, every variant and every number of clones. -/
+theorem step_within (k : CloneKind) (v : Variant) (d node D : WF)
+    (hD : D.fortran = true → D.c = true) (hd : Within d D) (h : Within node D) :
+    Within (step k v d node).1 D ∧ ∀ w ∈ (step k v d node).2, Within w D := by
+  have h' := (within_iff node D).mp h
+  cases k with
+  | cxxTemplate =>
+    simp only [step]
+    exact ⟨within_clear node D, fun w hw => by simp only [List.mem_replicate] at hw; rw [hw.2]; exact hd⟩
+  | defaultArg =>
+    simp only [step]
+    exact ⟨h, fun w hw => by simp only [List.mem_replicate] at hw; rw [hw.2]; exact within_cfOf _ _ h⟩
+  | returnThis =>
+    cases hc : node.c <;> cases hf : node.fortran
+    · rw [step_returnThis_skip v d node hc hf]; exact ⟨h, by simp⟩
+    all_goals
+      rw [step_returnThis_go v d node (by simp [hc, hf])]
+      refine ⟨?_, ?_⟩
+      · rw [within_iff]; exact ⟨by simp, h'.2.1, by simp, h'.2.2.2.1, h'.2.2.2.2⟩
+      · intro w hw; simp only [List.mem_singleton] at hw; subst hw; exact within_cfOf node D h
+  | argToCfi =>
+    cases hdf : d.fortran
+    · rw [step_cfi_skip v d node (Or.inl hdf)]; exact ⟨h, by simp⟩
+    · cases hnf : node.fortran
+      · rw [step_cfi_skip v d node (Or.inr (Or.inl hnf))]; exact ⟨h, by simp⟩
+      · cases hvf : v.fires
+        · rw [step_cfi_skip v d node (Or.inr (Or.inr hvf))]; exact ⟨h, by simp⟩
+        · rw [step_cfi_go v d node hdf hnf hvf]
+          exact bufClones_within v _ D hD (dropCIf_within _ _ _ h) (by simpa using hnf)
+  | argToBuffer =>
+    cases hc : node.c
+    · rw [step_buf_skip v d node hc]; exact ⟨h, by simp⟩
+    · rw [step_buf_go v d node hc]; exact bufStep_within v _ D hD (dropCIf_within _ _ _ h)
+  | fortranGeneric =>
+    cases hnf : node.fortran
+    · rw [step_fg_skip v d node hnf]; exact ⟨h, by simp⟩
+    · rw [step_fg_go v d node hnf]
+      refine ⟨?_, ?_⟩
+      · rw [within_iff]; exact ⟨by simp, h'.2.1, h'.2.2.1, h'.2.2.2.1, h'.2.2.2.2⟩
+      · intro w hw
+        rcases mem_fgClones node w v.newC hw with rfl | rfl
+        · exact within_fOnly _ _ h hnf
+        · exact within_cOnly _ _ hD h (Or.inr hnf)
+
+theorem bufClones_noscript (v : Variant) (node : WF) :
+    ∀ w ∈ (bufClones v node).2, w.python = false ∧ w.lua = false := by
+  intro w hw
+  cases hv : v.vectorArg <;> cases hr : v.resultAsArg <;> simp [bufClones, hv, hr] at hw <;>
+    (try rcases hw with rfl | rfl) <;> (try subst hw) <;> simp [cOnly, fOnly, WF.assign]
+
+/-- scripting languages handle overloads/defaults themselves: only template instantiation
+    makes a clone that is wrapped for Python or Lua -/
+theorem only_templates_clone_for_scripting (k : CloneKind) (v : Variant) (d node : WF)
+    (hk : k ≠ .cxxTemplate) : ∀ w ∈ (step k v d node).2, w.python = false ∧ w.lua = false := by
+  intro w hw
+  cases k with
+  | cxxTemplate => exact absurd rfl hk
+  | defaultArg => simp only [step, List.mem_replicate] at hw; rw [hw.2]; simp [cfOf, WF.assign]
+  | returnThis =>
+    cases hc : node.c <;> cases hf : node.fortran
+    · rw [step_returnThis_skip v d node hc hf] at hw; simp at hw
+    all_goals
+      rw [step_returnThis_go v d node (by simp [hc, hf])] at hw
+      simp only [List.mem_singleton] at hw; subst hw; simp [cfOf, WF.assign]
+  | argToCfi =>
+    cases hdf : d.fortran
+    · rw [step_cfi_skip v d node (Or.inl hdf)] at hw; simp at hw
+    · cases hnf : node.fortran
+      · rw [step_cfi_skip v d node (Or.inr (Or.inl hnf))] at hw; simp at hw
+      · cases hvf : v.fires
+        · rw [step_cfi_skip v d node (Or.inr (Or.inr hvf))] at hw; simp at hw
+        · rw [step_cfi_go v d node hdf hnf hvf] at hw; exact bufClones_noscript v _ w hw
+  | argToBuffer =>
+    cases hc : node.c
+    · rw [step_buf_skip v d node hc] at hw; simp at hw
+    · rw [step_buf_go v d node hc] at hw
+      cases hnf : node.fortran
+      · rw [bufStep_skip v _ (Or.inl (by simpa using hnf))] at hw; simp at hw
+      · cases hvf : v.fires
+        · rw [bufStep_skip v _ (Or.inr hvf)] at hw; simp at hw
+        · rw [bufStep_go v _ (by simpa using hnf) hvf] at hw; exact bufClones_noscript v _ w hw
+  | fortranGeneric =>
+    cases hnf : node.fortran
+    · rw [step_fg_skip v d node hnf] at hw; simp at hw
+    · rw [step_fg_go v d node hnf] at hw
+      rcases mem_fgClones node w v.newC hw with rfl | rfl <;> simp [fOnly, cOnly, WF.assign]
+
+/-- **a function that is not wrapped for Fortran gets no Fortran clone** (and no bufferify / CFI /
+    fortran_generic C function either): every non-template step leaves Fortran off on all its clones -/
+theorem no_fortran_clone_without_fortran (k : CloneKind) (v : Variant) (d node : WF)
+    (hk : k ≠ .cxxTemplate) (hf : node.fortran = false) : ∀ w ∈ (step k v d node).2, w.fortran = false := by
+  intro w hw
+  cases k with
+  | cxxTemplate => exact absurd rfl hk
+  | defaultArg => simp only [step, List.mem_replicate] at hw; rw [hw.2]; simp [cfOf, WF.assign, hf]
+  | returnThis =>
+    cases hc : node.c
+    · rw [step_returnThis_skip v d node hc hf] at hw; simp at hw
+    · rw [step_returnThis_go v d node (Or.inl hc)] at hw
+      simp only [List.mem_singleton] at hw; subst hw; simp [cfOf, WF.assign, hf]
+  | argToCfi => rw [step_cfi_skip v d node (Or.inr (Or.inl hf))] at hw; simp at hw
+  | argToBuffer =>
+    cases hc : node.c
+    · rw [step_buf_skip v d node hc] at hw; simp at hw
+    · rw [step_buf_go v d node hc, bufStep_skip v _ (Or.inl (by simpa using hf))] at hw; simp at hw
+  | fortranGeneric => rw [step_fg_skip v d node hf] at hw; simp at hw
+
+mutual
+/-- **(6) the whole family**: for every generation history - any sequence of clone-making steps applied to a
+    function and, recursively, to its clones - every member of the family ends up wrapped only for languages
+    that the declaration `D` has on.  `D`: Fortran only together with C (the property's quantifier); every
+    options-derived flag set recorded along the way is within `D` (options are inherited by clones and only
+    ever switched off). -/
+theorem family_within (D : WF) (hD : D.fortran = true → D.c = true) :
+    ∀ (h : Hist) (node : WF), (∀ d ∈ allD h, Within d D) → Within node D → ∀ w ∈ runHist h node, Within w D
+  | .mk steps, node, hd, hn => by
+    intro w hw
+    simp only [runHist] at hw
+    exact steps_within D hD steps node (by simpa [allD] using hd) hn w hw
+theorem steps_within (D : WF) (hD : D.fortran = true → D.c = true) :
+    ∀ (steps : List (CloneKind × Variant × WF × List Hist)) (node : WF),
+      (∀ d ∈ allDSteps steps, Within d D) → Within node D → ∀ w ∈ runSteps steps node, Within w D
+  | [], node, _, hn => by
+    intro w hw; simp only [runSteps, List.mem_singleton] at hw; subst hw; exact hn
+  | (k, v, d, hs) :: rest, node, hd, hn => by
+    intro w hw
+    simp only [runSteps, List.mem_append] at hw
+    have hdD : Within d D := hd d (by simp [allDSteps])
+    have hs' := step_within k v d node D hD hdD hn
+    rcases hw with hw | hw
+    · exact clones_within D hD hs (step k v d node).2
+        (fun d' hd' => hd d' (by simp [allDSteps, hd'])) hs'.2 w hw
+    · exact steps_within D hD rest _ (fun d' hd' => hd d' (by simp [allDSteps, hd'])) hs'.1 w hw
+theorem clones_within (D : WF) (hD : D.fortran = true → D.c = true) :
+    ∀ (hs : List Hist) (cs : List WF), (∀ d ∈ allDList hs, Within d D) → (∀ x ∈ cs, Within x D) →
+      ∀ w ∈ runClones hs cs, Within w D
+  | [], [], _, _ => by simp [runClones]
+  | _ :: _, [], _, _ => by simp [runClones]
+  | [], x :: cs, hd, hc => by
+    intro w hw
+    simp only [runClones, List.mem_cons] at hw
+    rcases hw with rfl | hw
+    · exact hc _ (by simp)
+    · exact clones_within D hD [] cs hd (fun y hy => hc y (by simp [hy])) w hw
+  | h :: hs, x :: cs, hd, hc => by
+    intro w hw
+    simp only [runClones, List.mem_append] at hw
+    rcases hw with hw | hw
+    · exact family_within D hD h x (fun d' hd' => hd d' (by simp [allDList, hd'])) (hc x (by simp)) w hw
+    · exact clones_within D hD hs cs (fun d' hd' => hd d' (by simp [allDList, hd']))
+        (fun y hy => hc y (by simp [hy])) w hw
+end
+
+/-- consequence in the property's words: a language that is **off for the declaration** is off on the function and
+    on every clone generated from it, whatever the generation history -/
+theorem off_for_declaration_off_for_family (D : WF) (hD : D.fortran = true → D.c = true) (l : Lang)
+    (hoff : D.get l = false) (h : Hist) (hd : ∀ d ∈ allD h, Within d D) :
+    ∀ w ∈ runHist h D, w.get l = false := by
+  intro w hw
+  have := family_within D hD h D hd (within_refl D) w hw l
+  cases hwl : w.get l
+  · rfl
+  · rw [this hwl] at hoff; exact absurd hoff (by simp)
+
 /-! ### regenerated tables -/
 
 /-- one write site is well formed: the C emitter writes into the C/Fortran
@@ -152,6 +471,19 @@ theorem emitters_use_own_directory :
 theorem emitter_order :
     driverSteps = modelDriverSteps ∧ defaultCloneAssign = (2, 2, 0, 0, 0) := by decide +kernel
 
+/-- **table theorem**: the `wrap.assign(...)` calls of generate.py are exactly the ones `step` models
+    (regenerated AST scan; a new or changed assign site breaks this) -/
+theorem clone_assign_sites : cloneAssigns = modelCloneAssigns := by decide +kernel
+
+/-- **table theorem**: every direct write `<x>.wrap.<lang> = v` in generate.py switches a language OFF; the only
+    other writes are `process_return_this` handing the node's own C/Fortran flag to its clone.  No direct write
+    switches a language on. -/
+theorem direct_writes_only_switch_off :
+    directWrites.all (fun r => r.2.2 == 0 || (r.1 == "process_return_this" && r.2.2 == 2)) = true := by decide +kernel
+
+/-- **table theorem**: `wrap.clear()` is only used on a template original and on the return_this clone -/
+theorem clear_sites : clearSites = ["template_function", "template_function2", "process_return_this"] := by decide +kernel
+
 /-! ### non-vacuity -/
 
 example : anyFlag .lua (.cont ⟨true, false, true, false, false⟩
@@ -159,6 +491,16 @@ example : anyFlag .lua (.cont ⟨true, false, true, false, false⟩
   decide
 
 example : Emitter.wrapl ∉ driverRun (promote (.cont ⟨true, false, true, false, true⟩ [.leaf ⟨true, false, true, false, true⟩])).flags := by
+  decide
+
+/-- the hypotheses of `step_within` are met by a real situation: a Fortran+C function with a string result
+    as argument: the step clears Fortran on the node and makes a C-only and a Fortran-only clone -/
+example : step .argToBuffer ⟨0, true, false, false, true, []⟩ ⟨true, false, true, false, true⟩ ⟨true, false, true, false, true⟩
+    = (⟨false, false, true, false, true⟩, [⟨false, false, true, false, false⟩, ⟨true, false, false, false, false⟩]) := by decide
+
+example : initFlags [⟨none, none, none, some false⟩, ⟨none, none, none, some true⟩] = ⟨true, false, true, false, false⟩ := by decide
+
+example : (step .fortranGeneric ⟨0, true, false, false, false, [false, true]⟩ ⟨false, false, true, false, false⟩ ⟨false, false, true, false, false⟩).2 = [] := by
   decide
 
 end Shroud.Flags
